@@ -59,6 +59,7 @@ class Observer:
         self.die_at = hooks.get("die_at")           # step index: die just before performing it
         self.torn = hooks.get("torn")               # {"step": i, "bytes": k}: at write step i write only k bytes then die
         self.force_mtime = hooks.get("force_mtime")  # after closing a written cache file set its mtime
+        self.gate_dirs = hooks.get("gate_dirs")      # the existence test / creation of the cache directory are scheduling points too
         self.gate_in = None
         self.gate_out = None
         if self.mode == "gate":
@@ -108,14 +109,14 @@ class Observer:
         existence test and the (re)load of the cache file, removals, creation/truncation, the
         point right after the cookie line has been written, the close and the rename."""
         if kind == "stat":
-            return detail.endswith(".py")
+            return detail.endswith(".py") or (bool(self.gate_dirs) and detail == "__pkts__")
         if kind == "open-r":
             return detail.endswith(".py")
         if kind == "write":
             self.nwrites = getattr(self, "nwrites", 0) + 1
             return self.nwrites % 4 == 3      # third write of a file: cookie line is on disk, code is not
         if kind == "mkdir":
-            return False
+            return bool(self.gate_dirs)
         return True
 
     def install(self):
@@ -186,34 +187,57 @@ class Observer:
 
 
 class WriteProxy:
-    """File proxy that turns every write()/close() on a cache file into a step and can tear a write."""
+    """File proxy that turns every write()/close() on a cache file into a step and can tear a write.
+
+    Like the buffered text file it stands for, it keeps what write() was given in memory and hands it to the
+    operating system when the file is flushed or closed (generated modules are smaller than the 8 KiB buffer).
+    A torn write is therefore a death *during that flush*: a prefix of the data reaches the file - whatever name
+    the file carries by then - and the process is gone."""
 
     def __init__(self, obs, fh, path):
         self._obs = obs
         self._fh = fh
         self._path = path
+        self._buf = []
+        self._tear = None
 
     def write(self, data):
         obs = self._obs
         idx = len(obs.steps)
         if obs.torn is not None and obs.active and obs.torn["step"] == idx:
-            k = obs.torn["bytes"]
-            obs.steps.append(["write", "%d of %d bytes (torn)" % (k, len(data))])
+            self._tear = obs.torn["bytes"]
+            obs.steps.append(["write", "%d bytes (only %d will reach the disk)" % (len(data), self._tear)])
+        else:
+            obs.step("write", "%d bytes" % len(data))
+        self._buf.append(data)
+        return len(data)
+
+    def _drain(self):
+        data = "".join(self._buf) if (self._buf and isinstance(self._buf[0], str)) else b"".join(self._buf)
+        self._buf = []
+        if self._tear is not None:
+            k = self._tear
             self._fh.write(data[:k])
             self._fh.flush()
             try:
                 os.fsync(self._fh.fileno())
             except Exception:
                 pass
-            sys.stdout.write("DIED torn write at step %d after %d bytes\n" % (idx, k))
+            sys.stdout.write("DIED torn write: %d of %d bytes flushed\n" % (k, len(data)))
             sys.stdout.flush()
             os._exit(77)
-        obs.step("write", "%d bytes" % len(data))
-        return self._fh.write(data)
+        if data:
+            self._fh.write(data)
+
+    def flush(self):
+        self._obs.step("flush-w", self._obs.short(self._path))
+        self._drain()
+        self._fh.flush()
 
     def close(self):
         obs = self._obs
         obs.step("close-w", obs.short(self._path))
+        self._drain()
         self._fh.close()
         if obs.force_mtime is not None:
             try:
@@ -240,8 +264,14 @@ def run_action(act, job, obs, classes):
         modname = act["module"]
         path = os.path.join(job["workdir"], modname + ".py")
         obs.active = False
-        with open(path, "w") as f:
-            f.write(act["source"])
+        try:
+            with open(path) as f:
+                same = f.read() == act["source"]
+        except OSError:
+            same = False
+        if not same:        # (several definers of one declaration may share the declaring file: never rewrite it needlessly)
+            with open(path, "w") as f:
+                f.write(act["source"])
         obs.active = True
         t0 = time.time()
         try:
@@ -254,7 +284,18 @@ def run_action(act, job, obs, classes):
             module = types.ModuleType(modname)
             module.__file__ = path
             sys.modules[modname] = module
-            exec(compile(act["source"], path, "exec"), module.__dict__)
+            ids = (job.get("hooks") or {}).get("pretend_ids")
+            if ids:
+                # a recycled process id: this process carries the pid / thread id of one that died earlier
+                import threading
+                real_ids = (os.getpid, threading.get_ident)
+                os.getpid = lambda: ids[0]
+                threading.get_ident = lambda: ids[1]
+            try:
+                exec(compile(act["source"], path, "exec"), module.__dict__)
+            finally:
+                if ids:
+                    os.getpid, threading.get_ident = real_ids
             cls = getattr(module, act["class"])
             out["defined"] = True
         except BaseException as e:
